@@ -696,6 +696,38 @@ func Run(c *hx.Ctx) {
 		add(plain(&kase{recv: []rfilter{{phase: px.AfterRoute, script: append(append([]verdict{}, sc...), verdict{"h", 403, sS})}}}))
 	}
 
+	// [proxy8] the task loop's budget used up (fixed: the worker used to leave silently): 9, 10, 11 and 'for ever' (25)
+	// requests for re-match-route / re-choose-host, then continue / deny / nothing; two-way and one-way; on a route whose
+	// retry policy makes the internal-error reply retriable; with an upstream that resets the forwarded request; with a
+	// second filter behind the asking one
+	for _, n := range []int{9, 10, 11, 25} {
+		for _, again := range []struct {
+			ph px.Phase
+			st api.StreamFilterStatus
+		}{{px.AfterRoute, sRM}, {px.AfterChooseHost, sRC}} {
+			var sc []verdict
+			for i := 0; i < n; i++ {
+				sc = append(sc, verdict{"n", 0, again.st})
+			}
+			for vi, last := range []verdict{{"n", 0, sC}, {"h", 403, sS}, {"hb", 429, sC}, {"t", 499, sS}} {
+				k := plain(&kase{recv: []rfilter{{phase: again.ph, script: append(append([]verdict{}, sc...), last)}}})
+				switch (n + vi) % 4 {
+				case 1:
+					k.oneway = true
+				case 2:
+					k.retry = &retryPol{on: true, n: 2, kind: "A"}
+					k.up = "r404:1:0"
+				case 3:
+					k.up = "reset"
+				}
+				add(k)
+			}
+			k := plain(&kase{recv: []rfilter{{phase: again.ph, script: sc}, {phase: px.AfterChooseHost, script: []verdict{{"h", 401, sS}}}}})
+			k.send = sendChains[2]
+			add(k)
+		}
+	}
+
 	// two answering filters in one pass: the first answers WITH a body and lets the chain go on, a later one denies header-only
 	// (and the other way round; across the three ways of answering; in every receive phase)
 	for _, ph := range []px.Phase{px.BeforeRoute, px.AfterRoute, px.AfterChooseHost} {
